@@ -27,5 +27,7 @@ with open(os.path.join(VERIF, 'seeded', 'SUMMARY.md'), 'w') as f:
         f.write('| ' + ' | '.join(str(x).replace('|', '/') for x in r) + ' |\n')
     n = len(rows)
     c = sum(1 for r in rows if r[5] != '-')
-    f.write(f'\n{c} of {n} seeded changes are reported by at least one quick check.\n')
+    z = sum(1 for r in rows if r[5] == '-' and 'no longer a defect' in r[7])
+    f.write(f'\n{c} of {n} seeded changes are reported by at least one quick check on the final tree; {z} further one(s) no longer break '
+            'the property there (see note).\n')
 print(len(rows), 'seeds summarised')
